@@ -25,6 +25,7 @@ import (
 	"strconv"
 	"strings"
 	"sync"
+	"syscall"
 	"time"
 
 	"cuelang.org/go/cmd/cue/cmd"
@@ -43,6 +44,11 @@ type c02Case struct {
 	origin string // seed name / generator
 	kind   string // mutation kind or "program"
 	runs   int
+	// known: one of the hand-written idioms at the end of c02Idioms that are KNOWN to die of a
+	// runaway recursion (known-findings.d/C02.txt; confirmed with Go's 1 GB default stack in
+	// earlier rounds and again in every thorough run): the quick tier does not pay the thirty
+	// CPU seconds of the 1 GB confirmation for them again
+	known bool
 }
 
 type c02Failure struct {
@@ -51,6 +57,32 @@ type c02Failure struct {
 	detail string
 	src    []byte
 	origin string
+}
+
+// c02Phase records wall and CPU time (this process + reaped children) of the phases of a run;
+// printed to stderr and counted, so that the budget of the quick tier can be read off a run.
+type c02PhaseTimer struct {
+	c    *Cfg
+	t0   time.Time
+	cpu0 time.Duration
+}
+
+func c02AllCPU() time.Duration {
+	var a, b syscall.Rusage
+	syscall.Getrusage(syscall.RUSAGE_SELF, &a)
+	syscall.Getrusage(syscall.RUSAGE_CHILDREN, &b)
+	return time.Duration(a.Utime.Nano() + a.Stime.Nano() + b.Utime.Nano() + b.Stime.Nano())
+}
+
+func c02StartPhase(c *Cfg) *c02PhaseTimer {
+	return &c02PhaseTimer{c: c, t0: time.Now(), cpu0: c02AllCPU()}
+}
+
+func (p *c02PhaseTimer) done(name string) {
+	w, u := time.Since(p.t0), c02AllCPU()-p.cpu0
+	fmt.Fprintf(os.Stderr, "C02-PHASE %-10s wall %6.1fs cpu %7.1fs\n", name, w.Seconds(), u.Seconds())
+	p.c.Count(fmt.Sprintf("phase/%s/wall-s=%d/cpu-s=%d", name, int(w.Seconds())/10*10, int(u.Seconds())/20*20))
+	p.t0, p.cpu0 = time.Now(), c02AllCPU()
 }
 
 func runC02(c *Cfg) {
@@ -88,10 +120,39 @@ func runC02(c *Cfg) {
 	}
 	t0 := time.Now()
 
+	// C02_ONLY (development aid): comma list of the streams to run: mech,scan,vf,pipe,cli
+	only := os.Getenv("C02_ONLY")
+	want := func(s string) bool { return only == "" || strings.Contains(","+only+",", ","+s+",") }
+
 	// ---- the two mechanisms against the Lean model --------------------------------
-	if !c.Focus || true {
-		c02RunSanitize(c, root.Sub())
-		c02RunToposort(c, root.Sub())
+	ph := c02StartPhase(c)
+	rs1, rs2 := root.Sub(), root.Sub()
+	// The mechanism / scanner / graph-construction streams are single-threaded and in-process;
+	// they run next to the pipeline workers (c.Op, c.Direct, c.Count are serialised by Cfg).
+	var aux sync.WaitGroup
+	aux.Add(1)
+	go func() {
+		defer aux.Done()
+		pm := c02StartPhase(c)
+		if want("mech") {
+			c02RunSanitize(c, rs1)
+			c02RunToposort(c, rs2)
+			pm.done("mech")
+		}
+		// streams added later draw from roots of their own, so that the cases of the older
+		// streams stay what they were for a given seed
+		if want("scan") {
+			c02RunScan(c, NewRng(c.Seed^0x5ca9).Sub())
+			pm.done("scan")
+		}
+		if want("vf") {
+			c02RunVF(c, NewRng(c.Seed^0x7f07).Sub())
+			pm.done("vf")
+		}
+	}()
+	defer aux.Wait()
+	if !want("pipe") {
+		return
 	}
 
 	// ---- pipeline cases -------------------------------------------------------------
@@ -111,7 +172,8 @@ func runC02(c *Cfg) {
 		for strings.Contains(src, "%s") {
 			src = strings.Replace(src, "%s", "1", 1)
 		}
-		cases = append(cases, &c02Case{src: []byte(src), origin: fmt.Sprintf("idiom#%d", i), kind: "idiom", runs: 8})
+		cases = append(cases, &c02Case{src: []byte(src), origin: fmt.Sprintf("idiom#%d", i), kind: "idiom", runs: 8,
+			known: i >= len(c02Idioms)-c02KnownTail && !c.Thorough()})
 	}
 	for i, src := range c02LiteralPrefixes() {
 		cases = append(cases, &c02Case{src: []byte(src), origin: fmt.Sprintf("literal-prefix#%d", i), kind: "literal-prefix", runs: 2})
@@ -160,6 +222,7 @@ func runC02(c *Cfg) {
 	for i, cs := range cases {
 		cs.id = i
 	}
+	ph.done("generate")
 
 	cpuMs := c.Pick(20000, 40000)
 	c02CLICPUms = cpuMs
@@ -190,6 +253,47 @@ func runC02(c *Cfg) {
 			}
 		}()
 	}
+	// ---- the CLI entry point on a sample, next to the pipeline workers -------------------
+	// every hand-written idiom, and evenly spaced samples of the three other families
+	// (truncated literals / syntax idioms, mutated corpus files, generated programs)
+	{
+		fam := map[string][]*c02Case{}
+		for _, cs := range cases {
+			switch cs.kind {
+			case "idiom":
+				cliSample = append(cliSample, cs)
+			case "literal-prefix", "syntax-prefix":
+				fam["prefix"] = append(fam["prefix"], cs)
+			case "program":
+				fam["program"] = append(fam["program"], cs)
+			default:
+				fam["raw"] = append(fam["raw"], cs)
+			}
+		}
+		for _, q := range []struct {
+			name string
+			n    int
+		}{{"prefix", c.Pick(6, 100)}, {"raw", c.Pick(10, 220)}, {"program", c.Pick(10, 220)}} {
+			l := fam[q.name]
+			for k := 0; k < q.n && k < len(l); k++ {
+				cliSample = append(cliSample, l[k*len(l)/q.n])
+			}
+		}
+	}
+	// the hand-written idioms (among them the known crashes, the longest-running commands) go
+	// FIRST so that they do not form the tail of the run; their failures do not count towards
+	// the cap after which further CLI cases are skipped
+	var cliFailures []*c02Failure
+	var cliWG sync.WaitGroup
+	if want("cli") {
+		cliWG.Add(1)
+		go func() {
+			defer cliWG.Done()
+			pc := c02StartPhase(c)
+			cliFailures = c02RunCLI(c, pool, cliSample)
+			pc.done("cli")
+		}()
+	}
 	for i, cs := range cases {
 		pool.mu.Lock()
 		settled := pool.confirmed >= 8 && pool.skipped > 40
@@ -201,29 +305,21 @@ func runC02(c *Cfg) {
 			break
 		}
 		next <- cs
-		if i%23 == 0 || cs.kind == "idiom" && (i%3 == 0 || i >= len(c02Idioms)-c02KnownTail) {
-			cliSample = append(cliSample, cs)
-		}
 	}
 	close(next)
 	wg.Wait()
+	ph.done("pipeline")
+	c02PrintCPU()
 	c.Count(fmt.Sprintf("workers-started/%d", pool.started))
 	if pool.skipped > 0 {
 		c.Count(fmt.Sprintf("worker-deaths-not-confirmed-after-8-confirmed/%d", pool.skipped))
 	}
-
-	// ---- the CLI entry point on a sample ---------------------------------------------
-	nCLI := c.Pick(90, 600)
-	if len(cliSample) > nCLI {
-		cliSample = cliSample[:nCLI]
-	}
-	// the hand-written idioms (among them the known crashes) go last, so that the cap on CLI
-	// failures is not used up by known findings before the random sample has run
-	sort.SliceStable(cliSample, func(i, j int) bool { return cliSample[i].kind != "idiom" && cliSample[j].kind == "idiom" })
-	failures = append(failures, c02RunCLI(c, cliSample)...)
+	cliWG.Wait()
+	failures = append(failures, cliFailures...)
 
 	// ---- minimise, classify, report ---------------------------------------------------
 	c02Report(c, pool, failures, cpuMs)
+	ph.done("report")
 	c.Count(fmt.Sprintf("wall-seconds/%d", int(time.Since(t0).Seconds())/30*30))
 }
 
@@ -234,11 +330,27 @@ func c02RunCase(pool *c02Pool, cs *c02Case, cpuMs int) (*c02Failure, string) {
 	if cs.cpuMs > 0 {
 		cpuMs = cs.cpuMs
 	}
-	rq := &c02Req{ID: cs.id, Src: cs.src, Runs: cs.runs, CPUms: cpuMs * max(1, cs.runs/2)}
-	o := pool.Ask(rq)
+	rq := &c02Req{ID: cs.id, Src: cs.src, Runs: cs.runs, CPUms: cpuMs * max(1, cs.runs/2), Known: cs.known}
 	fail := func(kind, detail string) *c02Failure {
 		return &c02Failure{kind: kind, detail: detail, src: cs.src, origin: cs.origin + " [" + cs.kind + "]"}
 	}
+	if cs.known {
+		// a known runaway recursion (quick tier): one run, alone in a fresh process with a 32 MB
+		// stack limit (two CPU seconds instead of the thirty-odd of the ordinary path: 128 MB
+		// overflow in a shared worker, confirmation alone, first of its cycle with 1 GB). If the
+		// input does NOT die any more it takes the ordinary path below.
+		o := pool.AskFresh(&c02Req{ID: cs.id, Src: cs.src, Runs: 1, CPUms: cpuMs}, "C02_MAXSTACK=33554432")
+		if o.Kind != "" {
+			pool.firstBigStack(o.Sig)
+			pool.mu.Lock()
+			pool.confirmedKnown++
+			pool.mu.Unlock()
+			f := fail(o.Kind, o.Detail)
+			f.sig = o.Sig
+			return f, "died"
+		}
+	}
+	o := pool.Ask(rq)
 	if strings.HasPrefix(o.Kind, "skipped:") {
 		pool.mu.Lock()
 		pool.skipped++
@@ -256,6 +368,7 @@ func c02RunCase(pool *c02Pool, cs *c02Case, cpuMs int) (*c02Failure, string) {
 		return f, "died"
 	}
 	rs := o.Resp
+	c02NoteCPU(strings.SplitN(cs.kind, "+", 2)[0], rs.CPUms)
 	if rs.Panic != "" {
 		return fail("panic", rs.Panic), rs.Stage
 	}
@@ -278,6 +391,35 @@ func c02RunCase(pool *c02Pool, cs *c02Case, cpuMs int) (*c02Failure, string) {
 		return fail("nondeterministic", "runs in two processes differ: "+d), rs.Stage
 	}
 	return nil, rs.Stage
+}
+
+var (
+	c02KindCPUMu sync.Mutex
+	c02KindCPU   = map[string]int64{}
+	c02KindN     = map[string]int64{}
+	c02KindMax   = map[string]int64{}
+)
+
+// c02NoteCPU accumulates the workers' CPU time per input kind (printed with the phases)
+func c02NoteCPU(kind string, ms int64) {
+	c02KindCPUMu.Lock()
+	c02KindCPU[kind] += ms
+	c02KindN[kind]++
+	c02KindMax[kind] = max(c02KindMax[kind], ms)
+	c02KindCPUMu.Unlock()
+}
+
+func c02PrintCPU() {
+	c02KindCPUMu.Lock()
+	defer c02KindCPUMu.Unlock()
+	var ks []string
+	for k := range c02KindCPU {
+		ks = append(ks, k)
+	}
+	sort.Strings(ks)
+	for _, k := range ks {
+		fmt.Fprintf(os.Stderr, "C02-CPU %-16s n=%5d cpu %7.1fs max %5.1fs\n", k, c02KindN[k], float64(c02KindCPU[k])/1000, float64(c02KindMax[k])/1000)
+	}
 }
 
 // c02Diff shows the first differing line of two outputs.
@@ -317,19 +459,14 @@ const c02CLIStack = 64 << 20
 // c02CLICPUms: CPU budget of one CLI command (set from the tier in runC02)
 var c02CLICPUms = 20000
 
-var (
-	c02CLIConfirmedMu sync.Mutex
-	c02CLIConfirmed   = map[string]bool{}
-)
-
-// c02CLIConfirm reports whether a stack overflow seen with the small limit is real: the
-// first one per recursion signature is re-run with the default 1 GB limit.
-func c02CLIConfirm(dir string, args []string, sig string, timeout time.Duration) bool {
-	c02CLIConfirmedMu.Lock()
-	done := c02CLIConfirmed[sig]
-	c02CLIConfirmed[sig] = true
-	c02CLIConfirmedMu.Unlock()
-	if done || sig == "" {
+// c02CLIConfirm reports whether a stack overflow seen with the small limit is real: the first
+// one per recursion signature — over the worker pool and the CLI runs together — is re-run
+// with the default 1 GB limit (known: see c02Case.known).
+func c02CLIConfirm(pool *c02Pool, dir string, args []string, sig string, timeout time.Duration, known bool) bool {
+	if sig == "" {
+		return true
+	}
+	if !pool.firstBigStack(sig) || known {
 		return true
 	}
 	code, _, se, to := c02CLIOnceStack(dir, args, 4*timeout, 1000000000)
@@ -368,11 +505,14 @@ func c02CLIOnceStack(dir string, args []string, timeout time.Duration, stack int
 	return code, so.String(), se.String(), false
 }
 
-func c02RunCLI(c *Cfg, sample []*c02Case) []*c02Failure {
+func c02RunCLI(c *Cfg, pool *c02Pool, sample []*c02Case) []*c02Failure {
 	var mu sync.Mutex
 	var out []*c02Failure
+	capped := 0 // failures of sampled (non-idiom) cases
 	var wg sync.WaitGroup
 	ch := make(chan *c02Case, 64)
+	sample = append([]*c02Case(nil), sample...)
+	sort.SliceStable(sample, func(i, j int) bool { return sample[i].kind == "idiom" && sample[j].kind != "idiom" })
 	cmds := [][]string{{"eval", "-a", "in.cue"}, {"export", "--out", "json", "in.cue"}, {"export", "--out", "yaml", "in.cue"}, {"vet", "-c", "in.cue"}}
 	if c.Thorough() {
 		cmds = append(cmds, []string{"def", "in.cue"}, []string{"fmt", "--check", "in.cue"})
@@ -386,16 +526,20 @@ func c02RunCLI(c *Cfg, sample []*c02Case) []*c02Failure {
 			os.MkdirAll(dir, 0o777)
 			for cs := range ch {
 				mu.Lock()
-				settled := len(out) >= 8
+				settled := capped >= 8
 				mu.Unlock()
-				if settled {
+				if settled && cs.kind != "idiom" {
 					// the verdict is settled; crashing CLI runs cost tens of CPU seconds each
 					c.Count("cli/skipped-after-8-failures")
 					continue
 				}
 				os.WriteFile(filepath.Join(dir, "in.cue"), cs.src, 0o666)
 				for _, args := range cmds {
-					code, so, se, to := c02CLIOnce(dir, args, timeout)
+					stack := c02CLIStack
+					if cs.known {
+						stack = 32 << 20
+					}
+					code, so, se, to := c02CLIOnceStack(dir, args, timeout, stack)
 					c.Count("cli/" + args[0] + fmt.Sprintf("/exit=%d", code))
 					var f *c02Failure
 					switch {
@@ -406,11 +550,15 @@ func c02RunCLI(c *Cfg, sample []*c02Case) []*c02Failure {
 						c.Count("cli/wall-timeout")
 					case code == c02ExitTime:
 						f = &c02Failure{kind: "timeout", detail: fmt.Sprintf("cue %s: CPU time above %d ms", strings.Join(args, " "), c02CLICPUms), src: cs.src, origin: cs.origin + " [" + cs.kind + "]"}
-					case strings.Contains(se, "stack overflow") && !c02CLIConfirm(dir, args, c02RecursionSig(se), timeout):
+					case strings.Contains(se, "stack overflow") && !c02CLIConfirm(pool, dir, args, c02RecursionSig(se), timeout, cs.known):
 						// deep but finite recursion: fine with the default stack limit
 						c.Count("cli/stack-overflow-only-with-small-stack")
 					case code != 0 && code != 1 || c02GoTrace.MatchString(se):
 						f = &c02Failure{kind: "cli-crash", sig: c02RecursionSig(se), detail: fmt.Sprintf("cue %s: exit %d: %s", strings.Join(args, " "), code, c02FirstLines(se, 10)), src: cs.src, origin: cs.origin + " [" + cs.kind + "]"}
+					case !c.Thorough() && args[0] != "eval":
+						// quick tier: the second run (same command, same input, another process) is
+						// made for `eval -a` only; repeatability of the exporters is what the worker
+						// pipeline compares in and across processes for EVERY case
 					default:
 						code2, so2, se2, to2 := c02CLIOnce(dir, args, timeout)
 						if !to2 && (code2 != code || so2 != so || se2 != se) {
@@ -420,6 +568,9 @@ func c02RunCLI(c *Cfg, sample []*c02Case) []*c02Failure {
 					if f != nil {
 						mu.Lock()
 						out = append(out, f)
+						if cs.kind != "idiom" {
+							capped++
+						}
 						mu.Unlock()
 						c.Direct(true, "", "", nil) // counted; reported after minimisation
 					} else {
@@ -614,10 +765,34 @@ func c02ClassifyResource(f *c02Failure, min []byte) string {
 	}
 }
 
+// c02SafeParse parses src in THIS process for the classification of a failing input — which
+// may be an input on which the scanner or parser itself never returns (seeded change C02-a:
+// the harness hung here, after having found and confirmed the hang in its workers). The parse
+// runs in a goroutine that is abandoned after ten seconds (it keeps spinning until the process
+// exits, shortly afterwards); a panic is swallowed. nil = no syntax tree.
+func c02SafeParse(src []byte) *ast.File {
+	ch := make(chan *ast.File, 1)
+	go func() {
+		defer func() {
+			if recover() != nil {
+				ch <- nil
+			}
+		}()
+		f, _ := parser.ParseFile("in.cue", src)
+		ch <- f
+	}()
+	select {
+	case f := <-ch:
+		return f
+	case <-time.After(10 * time.Second):
+		return nil
+	}
+}
+
 // c02CloseOfEnclosing: a call close(X) (possibly close(X) & …) where X names a field that
 // encloses the call (a structural cycle through the close builtin).
 func c02CloseOfEnclosing(src []byte) bool {
-	f, _ := parser.ParseFile("in.cue", src)
+	f := c02SafeParse(src)
 	if f == nil {
 		return false
 	}
@@ -664,7 +839,7 @@ var c02NaNLiteral = regexp.MustCompile(`[0-9.][eE][+-]?[0-9]{19,}`)
 // c02HasBoundWithRequired: some struct literal (or the file) embeds an expression containing
 // an ordered bound (< <= > >=) and declares a regular required field (`b!:`).
 func c02HasBoundWithRequired(src []byte) bool {
-	f, _ := parser.ParseFile("in.cue", src)
+	f := c02SafeParse(src)
 	if f == nil {
 		return false
 	}
